@@ -73,7 +73,7 @@ def tree_hash():
         h.update(f.encode())
         with open(f, 'rb') as fh:
             h.update(fh.read())
-    for extra in ('harness/drv.c', 'harness/stackscan.c', 'harness/threads.c', 'harness/probe.c', 'gen/dump.c', 'gen/emit.py'):
+    for extra in ('harness/drv.c', 'harness/stackscan.c', 'harness/threads.c', 'harness/probe.c', 'gen/dump.c', 'gen/emit.py', 'gen/ctrans.py'):
         if not os.path.exists(os.path.join(VERIF, extra)):
             continue
         with open(os.path.join(VERIF, extra), 'rb') as fh:
@@ -93,6 +93,7 @@ class Tree:
         os.makedirs(self.dir, exist_ok=True)
         self.dump = os.path.join(self.dir, 'dump.txt')
         self.errors = []
+        self.funcs = {}
 
     def prune(self, keep=3):
         ds = [os.path.join(CACHE, d) for d in os.listdir(CACHE) if os.path.isdir(os.path.join(CACHE, d)) and re.fullmatch(r'[0-9a-f]{16}', d)]
@@ -151,6 +152,14 @@ class Tree:
         r = run([sys.executable, os.path.join(VERIF, 'gen', 'emit.py'), self.dump, LEAN])
         if r.returncode != 0:
             return 'emit.py failed: ' + r.stdout[-2000:]
+        # function translator: typed clang AST of the current source -> Gen/Funcs.lean (tied by Tables.Funcs)
+        r = run([sys.executable, os.path.join(VERIF, 'gen', 'ctrans.py'), REPO, LEAN], stderr=subprocess.PIPE)
+        if r.returncode != 0:
+            return 'ctrans.py failed: ' + ((r.stderr or '') + r.stdout)[-2000:]
+        try:
+            self.funcs = json.loads(r.stdout)
+        except ValueError:
+            return 'ctrans.py: unreadable status: ' + r.stdout[-500:]
         return None
 
     def harness(self, variant):
